@@ -368,8 +368,25 @@ func runC01(c *eng.Ctx) {
 		c.Guard("GUARD-handler-cookie", "sinks", fn, eng.Entry(fn), sinks, eng.PassEdges(fn, handlerCookie(fn)),
 			h.what+" only on the equal edge of stored cookie == request cookie (request cookie loaded before the store read)")
 	}
-	c.Expect("GUARD-handler-cookie", 5)
+	// the gRPC batch delete: a file id is deleted only past the equal edge of the cookie comparison, or when the
+	// caller asked to skip the comparison
+	if fn := c.NeedFunc("weed/server", "(*VolumeServer).BatchDelete"); fn != nil {
+		sinks := eng.Find(fn, eng.PlainCallTo("storage.Store).DeleteVolumeNeedle"))
+		skip := eng.PassEdges(fn, eng.BoolVal(true, func(v ssa.Value) bool { return eng.IsField(v, "BatchDeleteRequest.SkipCookieCheck") }))
+		if len(sinks) == 0 {
+			c.Undecided("GUARD-handler-cookie", eng.FuncName(fn), fn.Pos(), "no delete sink found")
+		} else {
+			c.Guard("GUARD-handler-cookie", "sinks", fn, eng.Entry(fn), sinks, eng.MergeEdges(eng.PassEdges(fn, handlerCookie(fn)), skip),
+				"a file id of a batch is deleted only on the equal edge of stored cookie == request cookie (or when the request says to skip the comparison)")
+		}
+	}
+	c.Expect("GUARD-handler-cookie", 6)
 	c.Expect("ORDER-append-then-index", 2)
+
+	// (5a) a write or delete that arrives while the volume is compacted survives the commit with its latest state
+	if fn := c.NeedFunc("weed/storage", "(*Volume).makeupDiff"); fn != nil {
+		newestEntryWins(c, "ORDER-append-then-index", fn)
+	}
 
 	// (5b) ERR-storage: on the volume's read / write / delete paths no error of a callee is dropped: every call
 	// that returns an error is followed, on its non-nil edge, only by returns that carry an error
